@@ -21,6 +21,8 @@ func objRef(pkg, n string) *Field {
 	return &Field{Kind: "objref", Ref: &Ref{Pkg: pkg, Name: n}}
 }
 func prop(n string, f *Field) *Property { return &Property{Name: n, F: f} }
+
+func (f *File) withImports(is ...*Import) *File { f.Imports = append(f.Imports, is...); return f }
 func object(n string, ps ...*Property) *Element {
 	return &Element{Kind: "object", N: &Nested{Kind: "object", Name: n, Props: ps}}
 }
@@ -207,6 +209,23 @@ func Corpus() []CorpusCase {
 	add("outside-dup-enum-value-inline-siblings", "foo.v1", file(foo, "a",
 		object("Foo", prop("a", inlineEnum("", "X_", "ONE")), prop("b", inlineEnum("", "X_", "ONE")))))
 	add("outside-dup-enum-value-vs-type", "foo.v1", file(foo, "a", enumEl("A", "F", "OO"), object("FOO")))
+	// list methods (fix cec4e3a): a request holding a j5.list.v1.QueryRequest needs a response with exactly one array, of objects
+	listSvc := func(hasResp bool, resp ...*Property) *Element {
+		return &Element{Kind: "service", Service: &Service{Name: "Things", Base: sp("/things/v1"), Methods: []*Method{{
+			Name: "ListThings", Verb: "GET", Path: "/list", Request: []*Property{prop("page", objRef("j5.list.v1", "PageRequest")), prop("query", objRef("j5.list.v1", "QueryRequest"))},
+			HasResp: hasResp, Response: resp}}}}
+	}
+	strs := func(n string) *Property { return prop(n, &Field{Kind: "array", Item: str("string")}) }
+	things := func(n string) *Property { return prop(n, &Field{Kind: "array", Item: obj(prop("name", str("string")))}) }
+	add("list-method", "foo.v1", file(foo, "a", listSvc(true, things("things"), prop("page", objRef("j5.list.v1", "PageResponse"))),
+		&Element{Kind: "service", Service: &Service{Name: "ByAlias", Methods: []*Method{{Name: "ListRefs", Verb: "POST", Path: "/refs",
+			Request: []*Property{prop("q", objRef("list", "QueryRequest"))}, HasResp: true,
+			Response: []*Property{prop("refs", &Field{Kind: "array", Item: objRef("", "Thing")}), prop("tags", &Field{Kind: "map", Item: str("string")})}}}}},
+		object("Thing", prop("name", str("string")))).withImports(&Import{Path: "j5.list.v1"}))
+	add("outside-list-method-no-response", "foo.v1", file(foo, "a", listSvc(false)))
+	add("outside-list-method-no-array", "foo.v1", file(foo, "a", listSvc(true, prop("name", str("string")))))
+	add("outside-list-method-two-arrays", "foo.v1", file(foo, "a", listSvc(true, things("things"), strs("names"))))
+	add("outside-list-method-scalar-array", "foo.v1", file(foo, "a", listSvc(true, strs("names"))))
 	add("outside-subpackage-vs-package", "foo.v1",
 		file(foo, "a", svc("A", "Get")),
 		&File{Dir: []string{"foo", "v1", "service"}, Base: "b", Elements: []*Element{object("GetRequest", prop("x", str("string")))}})
